@@ -1,4 +1,6 @@
-"""C20, two more canary families (implementation-side oracle only):
+"""C20, more canary families (implementation-side oracle only):
+ (3) refusals that involve the user OBJECT: per-user connection limits reached, the same user logging in on several
+     sessions, a session ending while others of that user stay - error paths that may want to name the user;
  (1) encoding mismatch: the PASS line reaches the server in an encoding it cannot decode (latin-1 bytes,
      utf-8 server), raw and through Client(encoding="latin-1");
  (2) scripted server dialogues for Client.login: every order of 331 / 332 steps a server may answer with.
@@ -101,9 +103,47 @@ def run(ctx, scale=1):
                 if hits:
                     out_fail.append({"input": {"kind": "encoding-mismatch", "mode": mode, "password": pw}, "what": "password fragment %r in record %r" % (hits[0][4], hits[0][3]), "signature": "C20:undecodable-pass-line-leak"})
 
+    async def limits(cap):
+        for i in range(6 * scale):
+            pw, canaries = c20.make_password(rng, ("bare", "percent", "nonascii")[i % 3])
+            users = [aioftp.User("bob", pw, maximum_connections=1 + i % 2), aioftp.User("eve", "other-Pw", maximum_connections=1)]
+            server = aioftp.Server(users, maximum_connections=4)
+            await server.start("127.0.0.1", 0)
+            cap.take()
+            clients = []
+            try:
+                for k in range(4):
+                    c = aioftp.Client()
+                    try:
+                        await asyncio.wait_for(c.connect("127.0.0.1", server.server_port), 2)
+                        await asyncio.wait_for(c.login("bob", pw), 2)
+                    except Exception:  # noqa
+                        pass
+                    clients.append(c)
+                # one more control connection than the server admits, and an abrupt end of a logged-in session
+                try:
+                    r, w = await asyncio.open_connection("127.0.0.1", server.server_port)
+                    await asyncio.wait_for(r.readline(), 1)
+                    w.close()
+                except Exception:  # noqa
+                    pass
+                for c in clients:
+                    c.close()
+                await asyncio.sleep(0.02)
+            finally:
+                await server.close()
+            recs = cap.take()
+            res.cases += 1
+            res.count("limit_refusals")
+            res.distinct.add(("limits", i))
+            hits = c20.canary_hits(recs, canaries)
+            if hits:
+                out_fail.append({"input": {"kind": "limit-refusal", "password": pw, "maximum_connections": 1 + i % 2}, "what": "password fragment %r in record %r (per-user connection limit reached)" % (hits[0][4], hits[0][3]), "signature": "C20:limit-refusal-leak"})
+
     async def main(cap):
         await scripted(cap)
         await mismatch(cap)
+        await limits(cap)
 
     with c20._Installed() as cap:
         asyncio.run(main(cap))
